@@ -170,6 +170,12 @@ def shard(ctx, budget_s):
                 # duplicate-address-detection shape: solicitation from the unspecified address (no SLLA option allowed)
                 e = pkt.Endp(e.cmac, e.smac, bytes(16), e.sip)
                 opts = b""
+            k = rng.random()
+            if not sol and k < 0.25:
+                # the solicitation's IP destination need not be the target: another unicast address of the node (e.g. its
+                # link-local one, which is not in the self-IP list), all-nodes, or an unrelated address
+                odst = rng.choice([bytes.fromhex("fe80000000000000") + target[8:], pkt.ip("ff02::1"), gen.rnd_ip6(rng)])
+                e = pkt.Endp(e.cmac, pkt.ALLNODES_MAC if odst[0] == 0xFF else e.smac, e.cip, odst, fuzz=rng)
             items.append(("ns", gen.ns_frame(e, target, opts=opts, code=code, dst_solicited=sol)))
             if rng.random() < 0.2:
                 t = rng.choice([133, 134, 136, 137, 130, 131, 143, 1, 2, 3, 4, 129, rng.randrange(256)])
